@@ -88,6 +88,8 @@ fn cmd_enc(a: &[&str]) -> String {
     let safe_bytes = unhex(a[2]);
     let mut set = if a[1] == "1" { AsciiSet::new() } else { AsciiSet::empty() };
     for b in &safe_bytes { if *b < 128 { set = set.add(*b); } }
+    // optional 5th argument: bytes removed again with AsciiSet::remove (members or not)
+    if a.len() > 4 { for b in unhex(a[4]) { if b < 128 { set = set.remove(b); } } }
     let _ = ascii_set;
     let src = unhex_str(a[3]);
     format!("ok {}", hex(mdurl::encode(&src, set, keep).as_bytes()))
